@@ -230,21 +230,85 @@ class Check:
         s = set(names)
         return E.M(lambda t: s <= self.closure_mentions(fn, t), "mentions*(%s)" % ",".join(names))
 
+    def pred_summary(self, name):
+        """summary of a guard wrapper `bool F(params)`: {True: [(atom, val)], False: [...]} = the comparison atoms over its parameters and constants
+        that hold on every path to each `return <that constant>`; None when F is not a loaded function returning boolean constants only"""
+        cache = self.__dict__.setdefault("_pred_summaries", {})
+        if name in cache:
+            return cache[name]
+        cache[name] = None
+        cands = []
+        for fo in self.facts_objs:
+            cands = [f for f in fo.fns(name) if f.tmpl != 1]
+            if cands:
+                break
+        if len({(f.file, f.line) for f in cands}) != 1:
+            return None
+        fn = cands[0]
+        pnames = {p_["d"] for p_ in fn.params}
+        fl = F.Flow(fn)
+        out = {True: None, False: None}
+        for st in fl.sites:
+            if st.ev.get("e") != "ret":
+                continue
+            c = E.const(st.ev.get("x"))
+            if c not in (0, 1):
+                return None
+            atoms = {}
+            for f in st.facts:
+                if f[0] == "A":
+                    t = fl.trees[f[1]]
+                    if all(n.get("k") != "call" and (n.get("k") != "ref" or n.get("dk") in ("enum",) or n.get("d") in pnames) and n.get("k") not in ("mem", "this")
+                           for n in E.walk(t)) and any(n.get("k") == "ref" and n.get("d") in pnames for n in E.walk(t)):
+                        atoms[(f[1], f[2])] = (t, f[2])
+            out[bool(c)] = atoms if out[bool(c)] is None else {k: v for k, v in out[bool(c)].items() if k in atoms}
+        cache[name] = {"fn": fn, True: list((out[True] or {}).values()), False: list((out[False] or {}).values())}
+        return cache[name]
+
+    @staticmethod
+    def _subst(t, binding):
+        if isinstance(t, dict):
+            if t.get("k") == "ref" and t.get("d") in binding:
+                return binding[t["d"]]
+            return {k: Check._subst(v, binding) for k, v in t.items()}
+        if isinstance(t, list):
+            return [Check._subst(v, binding) for v in t]
+        return t
+
     def interval(self, site, is_var):
         """GINT: [lo, hi] implied for an integer expression by the comparison facts that hold on every path to `site`
-        (only `var < K`, `K < var`, `var == K` atoms with constant K are used; None = unbounded on that side)"""
+        (only `var < K`, `K < var`, `var == K` atoms with constant K are used; None = unbounded on that side).  A fact about a guard wrapper
+        `F(var)` contributes F's summary (pred_summary) when the argument is passed without an integer narrowing conversion."""
         site.flow.need_names(is_var)
-        lo = hi = None
+        st = {"lo": None, "hi": None}
         ne = set()
         tr = site.flow.trees
-        for f in site.facts:
-            if f[0] != "A":
-                continue
-            t = E.strip(tr[f[1]])
-            if not isinstance(t, dict) or t.get("k") != "bin" or t.get("op") not in ("<", "=="):
-                continue
+
+        def consume(t, val, depth=0):
+            t = E.strip(t)
+            if not isinstance(t, dict):
+                return
+            if t.get("k") == "call" and "o" not in t and depth < 2 and any(is_var(a) for a in t.get("a", [])):
+                sm = self.pred_summary(t.get("f", ""))
+                if sm:
+                    binding = {}
+                    for p_, a in zip(sm["fn"].params, t["a"]):
+                        n, narrowing = a, False
+                        while isinstance(n, dict) and n.get("k") in ("icast", "cast", "paren"):
+                            inner = n.get("e")
+                            if n.get("k") != "paren" and isinstance(inner, dict) and inner.get("iw") and n.get("iw") and abs(n["iw"]) < abs(inner["iw"]):
+                                narrowing = True
+                            n = inner
+                        if not narrowing and abs(p_.get("iw") or 0) >= abs((n or {}).get("iw") or 64):
+                            binding[p_["d"]] = n
+                    for at, av in sm[bool(val)]:
+                        if all(nd.get("k") != "ref" or nd.get("dk") == "enum" or nd.get("d") in binding for nd in E.walk(at)):
+                            consume(self._subst(at, binding), av, depth + 1)
+                return
+            if t.get("k") != "bin" or t.get("op") not in ("<", "=="):
+                return
             l, r = t.get("l"), t.get("r")
-            val = f[2]
+            lo, hi = st["lo"], st["hi"]
             if is_var(l) and E.const(r) is not None:
                 k = E.const(r)
                 if t["op"] == "<":
@@ -264,6 +328,11 @@ class Check:
                         lo = k + 1 if lo is None else max(lo, k + 1)
                     else:
                         hi = k if hi is None else min(hi, k)
+            st["lo"], st["hi"] = lo, hi
+        for f in site.facts:
+            if f[0] == "A":
+                consume(tr[f[1]], f[2])
+        lo, hi = st["lo"], st["hi"]
         changed = True
         while changed:
             changed = False
